@@ -1,3 +1,4 @@
+#include <cmath>
 // DSP primitives of the current tree behind the line protocol (C19): FIR with the demodulator's tap sets, the
 // correlator's IIR, the carrier detector's sliding DFT.  Samples are passed as integers n meaning n/4096 (exact in
 // float and double); results are returned as IEEE bit patterns so that the comparison can be exact.
@@ -39,6 +40,16 @@ template <typename F> static std::string iir(const Args& a)
     BaseIirFilter<F, 3> f{Correlator<F>::b, Correlator<F>::a};
     std::vector<long long> r;
     for (size_t i = 1; i < a.size(); ++i) r.push_back(bits(f(F(a[i]) / F(4096))));
+    return join(r);
+}
+// iirs <d> <k> x...: the same filter on inputs scaled to x / 2^k (small amplitudes; the filter is linear, so every amplitude matters)
+template <typename F> static std::string iirs(const Args& a)
+{
+    BaseIirFilter<F, 3> f{Correlator<F>::b, Correlator<F>::a};
+    std::vector<long long> r;
+    if (a.size() < 2) return "bad-op";
+    const F sc = std::ldexp(F(1), int(a[1]));
+    for (size_t i = 2; i < a.size(); ++i) r.push_back(bits(f(F(a[i]) / sc)));
     return join(r);
 }
 template <typename F> static std::string sdft(const Args& a)
@@ -108,6 +119,7 @@ static std::string handle(const std::string& op, const Args& a)
     bool d = !a.empty() && a[0] != 0;
     if (op == "fir") return d ? fir<double>(a) : fir<float>(a);
     if (op == "iir") return d ? iir<double>(a) : iir<float>(a);
+    if (op == "iirs") return d ? iirs<double>(a) : iirs<float>(a);
     if (op == "sdft") return d ? sdft<double>(a) : sdft<float>(a);
     if (op == "sdft1") return d ? sdft1<double>(a) : sdft1<float>(a);
     if (op == "firg") return d ? firg<double>(a) : firg<float>(a);
